@@ -304,7 +304,7 @@ def check_case(case: dict[str, Any], ctx: Any = None) -> list[str]:
 
 
 def run_shard(ctx: Any) -> None:
-    n = 25 if ctx.tier == "quick" else 600
+    n = 40 if ctx.tier == "quick" else 600
 
     @given(cases())
     def test(case: dict[str, Any]) -> None:
